@@ -14,6 +14,7 @@ import (
 	billy "github.com/go-git/go-billy/v6"
 
 	"github.com/go-git/go-billy/v6/helper/chroot"
+	"github.com/go-git/go-billy/v6/osfs"
 
 	"github.com/go-git/go-git/v6/internal/verifrt"
 	"github.com/go-git/go-git/v6/internal/veriffs"
@@ -69,6 +70,8 @@ func verifC40Tree(gitfile []byte) *veriffs.FS {
 	v.Put("/config", out)
 	v.Put("/.git/config", out)
 	v.Put("/R.git/config", out)
+	v.Put("/Ro/config", out)
+	v.Put("/Ra/.git/config", out)
 	return v
 }
 
@@ -81,6 +84,10 @@ func verifC40Det(req, gd string) {
 	}
 	v := verifC40Tree(content)
 	strict := verifrt.Param("STRICT") != 0 && verifrt.NondetBool()
+	// The host filesystem (what osfs.New opens) is the disk R is a directory
+	// of: a loader that goes to the host behind its base filesystem's back is
+	// observed on the same operation log (harness.json: hostFSHook).
+	osfs.VerifHostFS = func(root string) billy.Filesystem { return chroot.New(v, root) }
 	l := NewFilesystemLoader(chroot.New(v, verifC40Root), strict)
 
 	st, err := l.Load(&url.URL{Path: req})
@@ -116,6 +123,19 @@ func VerifHarness_C40_det() {
 	verifrt.Assume(free != '\\')
 	req := verifC40Bytes(verifrt.Range(0, verifrt.Param("N")), free)
 	gd := verifC40Bytes(verifrt.Range(0, verifrt.Param("M")), free)
+	verifC40Det(req, gd)
+}
+
+// det-abs: the request names the directory holding the gitfile; the gitfile's
+// gitdir is absolute and starts with R's own name: "/R" + <= K alphabet bytes
+// (R itself, names below R, and siblings whose name extends R's: /Ra, /Ro,
+// /R.git ...). Added after seed C40-1.
+func VerifHarness_C40_det_abs() {
+	free := verifrt.NondetByte()
+	verifrt.Assume(free < 0x80)
+	verifrt.Assume(free != '\\')
+	req := []string{"a", "/a/"}[verifrt.Range(0, 1)]
+	gd := verifC40Root + verifC40Bytes(verifrt.Range(0, verifrt.Param("K")), free)
 	verifC40Det(req, gd)
 }
 
@@ -275,6 +295,7 @@ func verifC40Chaotic(reqfix, gdfix bool) {
 	}
 	c := &verifC40Chaos{m: verifrt.Param("M"), free: free, gdfix: gdfix}
 	strict := verifrt.Param("STRICT") != 0 && verifrt.NondetBool()
+	osfs.VerifHostFS = func(root string) billy.Filesystem { return chroot.New(c, root) }
 	l := NewFilesystemLoader(chroot.New(c, verifC40Root), strict)
 
 	st, err := l.Load(&url.URL{Path: req})
